@@ -63,7 +63,7 @@ def run(case: dict[str, Any], limit: Optional[str], value: Optional[int], api: s
     _STORE.clear()
     _STORE.update(case["partials"])
     env = get_env(limit, value, bool(case.get("extra")))
-    d = dict(case["data"])
+    d = meter.fresh(case["data"])
 
     def go() -> Any:
         t = env.from_string(case["source"])
